@@ -1,5 +1,6 @@
 import Driver.Util
 import MpcVerif.Model.Conn
+import MpcVerif.Model.ConnDuplex
 
 /-!
 Line protocol of C11 (one line = one direction of one duplex session):
@@ -14,6 +15,19 @@ Line protocol of C11 (one line = one direction of one duplex session):
         `b<hex2>` `h<n>` `w<n>` `d<len>.<seed>` `s<len>.<seed>` `l<hex32>`
         `z<n>/<n>/…` `Z<len>.<seed>` (hashed size list) `f` (Flush) `n<count>` (NeedSpace)
   payload byte i of `d/s` is `((seed + i) * 0x9E3779B97F4A7C15) >> 56`.
+
+Duplex / fault sessions (one line = one whole session of two endpoints A, B):
+
+  c11 dx <fragA> <fragB> <graceAB>.<graceBA> <script>
+
+* fragA/fragB  read fragmentation of A's / B's transport reads (as above)
+* graceAB      number of `Write`s of A that the transport still accepts (and
+               discards) after B has closed its endpoint, before `Write` fails
+* script       `;`-separated steps in execution order: `A><op>` (a sender
+               operation as above), `A<<kind>` (one typed receive), `A!` (Close);
+               likewise `B…`.  The harness transport holds every `Write` until the
+               `Flush` that queued it has returned and lets the writer goroutines
+               finish between two steps (`Sess.step`).
 -/
 
 namespace Drv.C11
@@ -187,8 +201,62 @@ def handleFault (spec ops : String) : String :=
       s!"pre={pre};sent={s.sent};fl={s.flushed};writes={s.wire.length};tc={if cok then 1 else 0}"
   | _, _ => "bad-op"
 
+/-! ### duplex / fault sessions -/
+
+def parseStep (s : String) : Option (Bool × Act) :=
+  match s.toList with
+  | side :: '>' :: rest =>
+    if side != 'A' && side != 'B' then none else
+    (parseOp (String.ofList rest)).map fun o => (side == 'B', Act.op o)
+  | [side, '<', k] =>
+    if side != 'A' && side != 'B' then none else
+    (parseKind k).map fun k => (side == 'B', Act.recv k)
+  | [side, '!'] => if side != 'A' && side != 'B' then none else some (side == 'B', Act.close)
+  | _ => none
+
+def showRErr : RErr → String
+  | .eof => "!eof" | .wouldBlock => "!wb" | .closed => "!closed" | .bufFull => "!buffull" | .stuck => "!stuck"
+
+def showObs (os : List Obs) : String :=
+  let toks := os.filterMap fun
+    | .sent ok => some (if ok then "k" else "E")
+    | .got v => some (showVal v)
+    | .rerr e => some (showRErr e)
+    | .closed ok => some (if ok then "ck" else "cE")
+    | .skip => none
+  if toks.isEmpty then "-" else ",".intercalate toks
+
+/-- run-length encoded token list `tok*count,…` -/
+def rleS (l : List String) : String :=
+  let rec go (l : List String) (cur : String) (cnt : Nat) (acc : List String) : List String :=
+    match l with
+    | [] => (s!"{cur}*{cnt}" :: acc).reverse
+    | x :: xs => if x == cur then go xs cur (cnt + 1) acc else go xs x 1 (s!"{cur}*{cnt}" :: acc)
+  match l with
+  | [] => "-"
+  | x :: xs => ",".intercalate (go xs x 1 [])
+
+/-- every `conn.Write` call of an endpoint: its length, `x` appended when it failed -/
+def showWrites (s : FSender) : String :=
+  rleS ((s.handed.zip s.wire).map fun (h, w) => if w.size == h.size then s!"{h.size}" else s!"{h.size}x")
+
+def showSide (l : Local) : String :=
+  let rd := if l.r.dead then "-" else s!"{l.r.rcv.nread}.{hex64 l.r.rcv.rlog}"
+  s!"sent={l.snd.sent},fl={l.snd.flushed},rc={l.r.rcv.recvd},tc={l.r.closes},w={showWrites l.snd},rd={rd}"
+
+def handleDx (fa fb grace script : String) : String :=
+  match parseFrag fa, parseFrag fb, (grace.splitOn ".").mapM String.toNat?,
+        (if script == "-" then some [] else (script.splitOn ";").mapM parseStep) with
+  | some fragA, some fragB, some [gAB, gBA], some steps =>
+    let s := Sess.run fragA fragB { graceAB := gAB, graceBA := gBA } steps
+    let lnk := fun (rcv : Recv) (disc : Nat) => s!"{rcv.pend.size},{hex64 (fnv1a rcv.pend)},{disc}"
+    s!"A={showObs s.obsA};B={showObs s.obsB};a:{showSide s.a};b:{showSide s.b};" ++
+      s!"ab={lnk s.b.r.rcv s.discAB};ba={lnk s.a.r.rcv s.discBA}"
+  | _, _, _, _ => "bad-op"
+
 def handle (args : List String) : String :=
   match args with
+  | ["dx", fa, fb, grace, script] => handleDx fa fb grace script
   | ["fault", spec, _, ops] => handleFault spec ops
   | [mode, frag, kinds, ops] =>
     match parseFrag frag, parseKinds kinds, parseOps ops with
